@@ -1187,6 +1187,9 @@ class SortValues(BaseSetIndexSortValues):
         if (
             isinstance(parent, Repartition)
             and parent.operand("new_partitions") is not None
+            # an explicit ``npartitions`` of the sort decides the number of output
+            # partitions whatever the partitioning of the frame
+            and self.operand("npartitions") is None
         ):
             return type(self)(
                 type(parent)(self.frame, *parent.operands[1:]), *self.operands[1:]
